@@ -65,6 +65,8 @@ type comGen struct {
 	denom   string
 	ids     map[string]string
 	unknown string
+	// exact-boundary scenarios: delegating / redelegating exactly this much to validator 0 gives exactly 6.6 %
+	exactDel, exactRedel *big.Int
 }
 
 func (g *comGen) valID(a string) string {
@@ -112,6 +114,17 @@ func (g *comGen) valAddr() (string, int) {
 
 // amount around the boundary (tok+a)/(total+[a]) = 6.6 %
 func (g *comGen) amount(i int, redelegate bool) *big.Int {
+	if i == 0 && ((!redelegate && g.exactDel != nil) || (redelegate && g.exactRedel != nil)) && g.rng.Chance(3, 4) {
+		a := g.exactDel
+		if redelegate {
+			a = g.exactRedel
+		}
+		a = new(big.Int).Add(a, big.NewInt(int64([]int{0, 0, 0, -1, 1}[g.rng.Intn(5)])))
+		if a.Sign() < 0 {
+			a.SetInt64(0)
+		}
+		return a
+	}
 	if i < 0 || g.rng.Chance(1, 4) {
 		return g.rng.Amount(100)
 	}
@@ -221,6 +234,25 @@ func init() {
 				}
 				amts = append(amts, sdk.NewIntFromBigInt(a))
 				sum = sum.Add(amts[i])
+			}
+			if rng.Chance(1, 6) {
+				// exact boundary: (tok0 + a) = 33m and total (+ a) = 500m, i.e. exactly 6.6 %
+				K = 2
+				a := rng.Amount(60)
+				m := new(big.Int).Add(new(big.Int).Quo(a, big.NewInt(33)), big.NewInt(1+int64(rng.Intn(1000))))
+				if rng.Chance(1, 3) {
+					m.Add(m, rng.Amount(70))
+				}
+				t0 := new(big.Int).Sub(new(big.Int).Mul(big.NewInt(33), m), a)
+				t1 := new(big.Int).Mul(big.NewInt(467), m)
+				if rng.Bool() {
+					g.exactDel = a
+				} else {
+					g.exactRedel = a
+					t1.Add(t1, a)
+				}
+				amts = []sdk.Int{sdk.NewIntFromBigInt(t0), sdk.NewIntFromBigInt(t1)}
+				sum = amts[0].Add(amts[1])
 			}
 			if K > 0 {
 				funder := sifapp.AddTestAddrs(app, ctx, 1, sum.AddRaw(1))[0]
